@@ -206,10 +206,13 @@ func (e *Engine) instrMods(in ssa.Instruction, ms *ModSet, inLoop map[*ssa.Basic
 		}
 	case *ssa.Send:
 		ms.add(kiGhost("chanlog", "Int"))
+		ms.add(kiGhost("handed", "(Array Int Bool)"))
 	case *ssa.Select:
 		for _, sc := range x.States {
 			if sc.Dir == types.RecvOnly {
 				ms.add(kiGhost("nrecv", "(Array Int Int)"))
+			} else {
+				ms.add(kiGhost("handed", "(Array Int Bool)"))
 			}
 		}
 	case *ssa.UnOp:
